@@ -55,8 +55,35 @@ impl<'a> Cx<'a> {
     }
 }
 
+/// C12 with the user's type: for p in [0,1) OF THAT TYPE (including values whose f64 image is 1.0) the quantile is an error
+/// or a finite positive value, and never a panic
+fn gamma_dd(sm: &mut Summary, seed: u64) {
+    use std::panic::{catch_unwind, AssertUnwindSafe};
+    let mut rng = rng_for(seed ^ 0x9a, 7);
+    let mut shapes: Vec<f64> = vec![0.05, 0.3, 0.5, 1.0 - 1e-9, 1.0 - 4e-9, 1.0, 1.0 + 1e-9, 1.0 + 9e-9, 1.5, 2.0, 3.0, 10.0, 50.0, 100.0];
+    for _ in 0..20 { shapes.push(0.05 * 2000f64.powf(rng.gen_range(0.0..1.0))); }
+    let mut ps: Vec<Dd> = vec![Dd::new(1.0, -1e-25), Dd::new(1.0, -1e-20), Dd::new(1.0, -1.2e-17), Dd::new(1.0, -1e-16), Dd::new(1.0, -1e-30),
+                               Dd::new(0.5, 1e-20), Dd::f(1e-300), Dd::f(1e-320), Dd::ZERO, Dd::new(1e-17, 1e-40)];
+    for _ in 0..10 { ps.push(jitter(rng.gen_range(0.0..1.0), &mut rng)); }
+    for &a in &shapes { for p in &ps {
+        let r = catch_unwind(AssertUnwindSafe(|| momtrop::gamma::inverse_gamma_lr(&Dd::f(a), p, 50, &Dd::f(5.0))));
+        sm.evaluations += 1;
+        sm.count("dd_gamma_calls");
+        let bad = match r {
+            Ok(Ok(l)) => if l.is_finite() && l.hi > 0.0 { None } else { Some(format!("returned the value ({:e}, {:e})", l.hi, l.lo)) },
+            Ok(Err(_)) => None,
+            Err(m) => Some(format!("panicked: {}", panic_msg(m))),
+        };
+        if let Some(b) = bad {
+            sm.violation("C12", format!("[double-double scalar] inverse_gamma_lr(a = {}, p = {:e} + {:e}) {}", a, p.hi, p.lo, b),
+                         json!({"dd": true, "gamma": {"a": hexf(a), "p": [hexf(p.hi), hexf(p.lo)]}, "line": {}}), json!({}));
+        }
+    } }
+}
+
 pub fn run(lines: &[Value], seed: u64, base_idx: u64, points: usize) -> Summary {
     let mut sm = Summary::default();
+    gamma_dd(&mut sm, seed);
     for (li, inst) in lines.iter().enumerate() {
         let idx = li as u64 + base_idx;
         let line = Line::parse(inst);
